@@ -12,6 +12,7 @@ import (
 	"sync"
 
 	"github.com/anz-bank/sysl/pkg/eval"
+	"github.com/anz-bank/sysl/pkg/parse"
 	"github.com/sirupsen/logrus"
 )
 
@@ -42,6 +43,7 @@ func workerMain() {
 		}
 		r := runReal(&p)
 		b, _ := json.Marshal(r)
+		out.WriteString("@@")
 		out.Write(b)
 		out.WriteByte('\n')
 		out.Flush()
@@ -55,6 +57,16 @@ func runReal(p *Prog) (r reply) {
 		}
 	}()
 	mod := toProtoModule(p)
+	if p.Src != "" {
+		m, err := parse.NewParser().ParseString(p.Src)
+		if err != nil {
+			return reply{Err: "source does not compile: " + err.Error()}
+		}
+		if m.Apps["T"] == nil || m.Apps["T"].Views[p.Main] == nil {
+			return reply{Err: "source compiled without the view"}
+		}
+		mod = m
+	}
 	sc := eval.Scope{}
 	for _, kv := range p.Scope {
 		sc[kv.Key] = toProtoVal(kv.V)
@@ -101,9 +113,16 @@ func (w *worker) eval(p *Prog) (obs, bool) {
 	if _, err := w.in.Write(b); err != nil {
 		return w.dead(), false
 	}
-	line, err := w.out.ReadBytes('\n')
-	if err != nil {
-		return w.dead(), false
+	var line []byte
+	for {
+		l, err := w.out.ReadBytes('\n')
+		if err != nil {
+			return w.dead(), false
+		}
+		if len(l) > 2 && l[0] == '@' && l[1] == '@' { // anything else is a stray print of the code under test
+			line = l[2:]
+			break
+		}
 	}
 	var r reply
 	if err := json.Unmarshal(line, &r); err != nil {
